@@ -8,7 +8,7 @@ import collections, hashlib, json, os, re
 from . import poly_common as pc
 
 LEVEL = "proof"
-FAMILIES = ["lin", "cpoly", "nnc", "bds", "oct", "box", "grid", "pps", "prod"]
+FAMILIES = ["lin", "cpoly", "nnc", "bds", "oct", "box", "grid", "pps", "prod", "det_cpoly", "det_grid"]
 
 # operations of the harness that hand the library a reference INTO an argument's own description
 OWN_REF = re.compile(r"own_|\(y\.|first_disjunct|y's_|\(CS\)|\(CGS\)|\(GS\)|\(GGS\)")
@@ -16,8 +16,12 @@ READS_GRID_DESCRIPTION = re.compile(r"congruence|constraint|grid_generators|rela
 
 
 def parse_step(line):
-    """step <kind> <name> <ndst> d… <nargs> a… [# info…] -> dict"""
+    """step <kind> <name> <ndst> d… <nargs> a… [# info…] -> dict   (also the `dstep` lines of the Determinate histories)"""
     t = line.split()
+    if t[0] == "dstep":
+        hs = [int(x) for x in t[2:4] if x.isdigit()]
+        name = t[1] + (":" + t[-1] if t[1] in ("mutate", "binop") else "")
+        return {"kind": "det", "name": name, "dsts": hs[:1], "args": hs, "info": []}
     info = []
     if "#" in t:
         k = t.index("#")
@@ -56,9 +60,15 @@ def classify(hist_lines, rel_idx, verdict):
     fam = hist_lines[0].split()[2] if len(hist_lines[0].split()) > 2 else "?"
     obligation = verdict.split()[0] if verdict else "?"
     k = rel_idx
-    while k > 0 and not hist_lines[k].startswith("step "):
+    while k > 0 and not hist_lines[k].startswith(("step ", "dstep ")):
         k -= 1
-    st = parse_step(hist_lines[k]) if hist_lines[k].startswith("step ") else {"kind": "?", "name": "?", "dsts": [], "args": [], "info": []}
+    st = parse_step(hist_lines[k]) if hist_lines[k].startswith(("step ", "dstep ")) else {"kind": "?", "name": "?", "dsts": [], "args": [], "info": []}
+    if st["kind"] == "det":
+        site = "Determinate::" + st["name"]
+        tags = ["fam_" + fam, "obl_" + obligation, "kind_det"] + (["aliased"] if len(set(st["args"])) < len(st["args"]) else [])
+        if obligation == "crash":
+            tags.append("crash")
+        return site, tags, st
     pre = {}                      # value of every slot before the step
     for l in hist_lines[:k]:
         if l.startswith("obs "):
@@ -112,13 +122,13 @@ def run(ctx):
     flags = () if quick else ("-fsanitize=address,undefined", "-fno-sanitize-recover=undefined", "-fno-omit-frame-pointer")
     h = ctx.compile_harness("c13_values.cc", out_name="c13_values" if quick else "c13_values_asan", flags=flags)
     wd = ctx.workdir()
-    n_hist = 4500 if quick else 45000
+    n_hist = 4950 if quick else 49500
     length = 15 if quick else 30
     if ctx.replay:
         rp = json.load(open(ctx.replay))
         cmd = [h] + [str(x) for x in rp.get("harness_args", [])]
     else:
-        cmd = [h, "--seed", str(ctx.seed), "--first", "0", "--last", str(n_hist), "--len", str(length), "--batch", "1"]
+        cmd = [h, "--seed", str(ctx.seed), "--first", "0", "--last", str(n_hist), "--len", str(length), "--cpu", "10" if quick else "120"]
     # independent slices of the history range run in parallel
     import concurrent.futures as cf
     nproc = 8
@@ -130,7 +140,7 @@ def run(ctx):
             return cmd
         a = n_hist * i // nproc
         b = n_hist * (i + 1) // nproc
-        return [h, "--seed", str(ctx.seed), "--first", str(a), "--last", str(b), "--len", str(length), "--batch", "1"]
+        return [h, "--seed", str(ctx.seed), "--first", str(a), "--last", str(b), "--len", str(length), "--cpu", "10" if quick else "120"]
 
     def work(i):
         jp = os.path.join(wd, "journal%d.txt" % i)
@@ -149,6 +159,8 @@ def run(ctx):
     stats = collections.Counter()
     opc, oblc, famc, kindc = collections.Counter(), collections.Counter(), collections.Counter(), collections.Counter()
     aliased_steps = collections.Counter()
+    detpat = collections.Counter()
+    per_hist = collections.Counter()
     distinct, nontrivial, samples = set(), 0, []
     exceptions = collections.Counter()
     for start, lines in hists:
@@ -157,7 +169,45 @@ def run(ctx):
         key = hashlib.sha256("\n".join(lines[1:]).encode()).hexdigest()
         n_alias = n_copy = n_mut_after_copy = 0
         seen_copy = False
+        addr = {}                      # Determinate histories: handle -> address of its point set
         for l in lines:
+            if l.startswith("dobs "):
+                t = l.split()
+                if t[2] == "dead":
+                    addr.pop(int(t[1]), None)
+                else:
+                    addr[int(t[1])] = t[2]
+            elif l.startswith("dstep "):
+                t = l.split()
+                op = t[1]
+                opc["Determinate::" + op + (":" + t[-1] if op in ("mutate", "binop") else "")] += 1
+                kindc["det"] += 1
+                if op in ("assign", "swap", "binop"):
+                    h, y = int(t[2]), int(t[3])
+                    holders = lambda a: sum(1 for v in addr.values() if v == a)
+                    if h == y:
+                        pat = "%s:self:%s" % (op, "sole_owner" if holders(addr.get(h)) == 1 else "shared")
+                        n_alias += 1
+                    elif addr.get(h) == addr.get(y):
+                        pat = "%s:two_handles_of_one_Rep" % op
+                        n_alias += 1
+                    else:
+                        pat = "%s:different_Reps:%s" % (op, "last_holder" if holders(addr.get(h)) == 1 else "receiver_shared")
+                    detpat[pat] += 1
+                elif op == "mutate":
+                    h = int(t[2])
+                    detpat["mutate:%s" % ("unshared" if sum(1 for v in addr.values() if v == addr.get(h)) == 1 else "shared")] += 1
+                    if seen_copy:
+                        n_mut_after_copy += 1
+                elif op == "copy":
+                    n_copy += 1
+                    seen_copy = True
+                    detpat["copy"] += 1
+                elif op == "destroy":
+                    h = int(t[2])
+                    detpat["destroy:%s" % ("last_holder" if sum(1 for v in addr.values() if v == addr.get(h)) == 1 else "shared")] += 1
+                else:
+                    detpat[op] += 1
             if l.startswith("step "):
                 st = parse_step(l)
                 opc[st["name"]] += 1
@@ -190,6 +240,11 @@ def run(ctx):
             if v[0] == "MISMATCH":
                 site, tags, st = classify(lines, i, v[1])
                 oblc[v[1].split()[0]] += 1
+                # a broken history goes on failing: at most 2 reports per history, 250 per run (all are counted)
+                per_hist[start] += 1
+                if per_hist[start] > 2 or (len(ctx.violations) >= 250 and ctx.match_known({"site": site, "tags": tags}) is None):
+                    stats["mismatch_not_reported_separately"] += 1
+                    continue
                 # the replay: the whole history up to the event (the harness regenerates it from seed and index)
                 hid = lines[0].split()[1]
                 ctx.violation("%s [%s]: %s" % (site, fam, v[1][:500]),
@@ -211,9 +266,12 @@ def run(ctx):
                 "(x.op(x), one object in two positions, self-assignment/self-swap), one copy/assignment, and one mutation after it" % (length, ",".join(FAMILIES)),
         "samples": samples, "traces_validated_against_impl": len(hists),
         "observations_decided": stats["ok"], "observations_mismatch": stats["MISMATCH"],
+        "mismatches_beyond_the_report_limit": stats["mismatch_not_reported_separately"],
         "observations_skipped": {k[5:]: v for k, v in stats.items() if k.startswith("skip:")},
         "families": dict(famc), "step_kinds": dict(kindc), "operations": len(opc),
         "op_histogram": dict(opc.most_common(400)), "aliased_step_histogram": dict(aliased_steps.most_common(400)),
+        "determinate_patterns": dict(detpat),
+        "runs_cut_short_by_repeated_crashes": [l for l in journal if l.startswith("aborted ")],
         "mismatch_obligations": dict(oblc), "exception_lines": dict(exceptions.most_common(20)),
         "driver_summary": summary, "sanitizers": list(flags),
     })
@@ -224,6 +282,10 @@ def run(ctx):
         "pairs after the product's own reduction (products), token equality (syntactic objects); `all histories' of the real code is sampled",
         "outside Determinate<PSET> the sharing mechanisms (recycling, row swapping, lazy updates of const arguments) are validated by the histories, not modelled",
         "the operations themselves are uninterpreted: the oracle of f(args) is the same library operation run on distinct copy-constructed copies",
+        "Determinate<C_Polyhedron> / Determinate<Grid> histories run in lock step with the Lean machine PPLV.Value.Cow (the one the theorems are about): values, "
+        "liveness, the partition of the handles by representation and its stability in time (address of the const pointset(), freed blocks are poisoned and never "
+        "reused during a history), double deletes seen by the executable's operator delete, and the live-block count after all handles are gone "
+        "(measured on the second of two identical passes, so that the library's lazily grown scratch objects have their final size)",
         "widenings / narrowings are run after a separate upper-bound (meet) step so that their precondition holds; "
         "simplify_using_context_assign is judged through its meet with a saved copy of the context (its result is not a function of the values)",
         "operations avoided because of defects owned by other properties: Grid::remove_higher_space_dimensions (KF-C05-14), "
